@@ -227,7 +227,15 @@ def toptwo_oracle(jp, kw, st, ex):
             return "toptwo-raise", f"raised {ex} although there is no unbroken tie (first places {canon.cscores(fp)}, run-off {canon.cscores(f1)})"
         return "toptwo-raise", f"raised {ex} although a tiebreak was requested"
     if len(st) != 3:
-        return "toptwo-rounds", f"{len(st) - 1} rounds recorded, expected 2"
+        # the statement fixes the winner, not how many rounds are recorded: judge the winner only
+        got = [c for s_ in st for g in s_["elected"] for c in g]
+        adv2, tied2 = RS.top_m_sets(fp, 2)
+        if tied2 is None:
+            f1 = RS.fpv(reduce_profile(jp, adv2))
+            best = max(f1.values())
+            if len(got) != 1 or f1.get(got[0]) != best:
+                return "toptwo-winner", f"winner {got}, head-to-head first-preference tallies {canon.cscores(f1)}"
+        return None
     adv = [c for g in st[1]["remaining"] for c in g]
     if not advanced_ok(fp, 2, adv):
         return "toptwo-stage1", f"advanced {sorted(adv)} are not the two highest first-place candidates ({canon.cscores(fp)})"
